@@ -85,6 +85,7 @@ def main(argv=None):
             results = [_run_unit_idx(j) for j in jobs]
 
     violations, known_hits, undecided, crashes = [], [], [], []
+    seen_what, dup_paths = set(), {}
     n_obl = n_dis = 0
     solver_ms = 0
     by_solver = {}
@@ -122,8 +123,14 @@ def main(argv=None):
                 what = f"{r['unit']}::{o['label']}"
                 k = match_known(known, prop, what)
                 if k is not None:
-                    known_hits.append((k, what))
+                    if what not in seen_what:
+                        known_hits.append((k, what))
+                    seen_what.add(what)
                     continue
+                if what in seen_what:      # one VIOLATION line per failed (unit, obligation); paths are in the evidence
+                    dup_paths[what] = dup_paths.get(what, 0) + 1
+                    continue
+                seen_what.add(what)
                 os.makedirs(rep_dir, exist_ok=True)
                 rp = o.get("replay") or {}
                 path = os.path.join(rep_dir, re.sub(r"[^A-Za-z0-9_.-]+", "_", what)[:150] + f"__{i}.json")
@@ -144,7 +151,9 @@ def main(argv=None):
                 what = f"bounded::{f['what']}"
                 k = match_known(known, prop, what)
                 if k is not None:
-                    known_hits.append((k, what))
+                    if k["match"] not in seen_what:
+                        known_hits.append((k, what))
+                    seen_what.add(k["match"])
                     continue
                 os.makedirs(rep_dir, exist_ok=True)
                 path = os.path.join(rep_dir, re.sub(r"[^A-Za-z0-9_.-]+", "_", what)[:150] + ".json")
